@@ -64,6 +64,13 @@ class Ctx:
         self.exhaustive = None
         kf = os.path.join(VERIF, "known_findings.json")
         self.known = json.load(open(kf)) if os.path.exists(kf) else {"findings": [], "fixed": []}
+        kd = os.path.join(VERIF, "known_findings.d")
+        if os.path.isdir(kd):
+            for fn in sorted(os.listdir(kd)):
+                if fn.endswith(".json"):
+                    extra = json.load(open(os.path.join(kd, fn)))
+                    self.known["findings"] += extra.get("findings", [])
+                    self.known["fixed"] += extra.get("fixed", [])
 
     # ------------------------------------------------------------------ utilities
     @property
@@ -97,8 +104,10 @@ class Ctx:
         return ["-Q", os.path.join(COQ, "theories"), "Qib", "-Q", self.build, "Run",
                 "-w", "-notation-overridden,-deprecated-hint-without-locality,-deprecated-instance-without-locality"]
 
-    def lib(self):
-        """Build the static library (theorems about the hand-written models). Full .vo build."""
+    def lib(self, targets=None):
+        """Build the static library (theorems about the hand-written models). Full .vo build.
+        targets: list like ["Pauli/PauliCheck", "Pauli/PauliProofs2"] (files under coq/theories
+        without .v) -- only these and their dependencies are (re)built; None = everything."""
         lock = open(os.path.join(VERIF, "build", ".lock"), "w")
         fcntl.flock(lock, fcntl.LOCK_EX)
         try:
@@ -106,13 +115,21 @@ class Ctx:
                 rc, out, _ = sh("coq_makefile -f _CoqProject -o Makefile", cwd=COQ, timeout=60)
                 if rc != 0:
                     raise SystemExit("coq_makefile failed:\n" + out)
-            rc, out, dt = sh("make -j%d" % NPROC, cwd=COQ, timeout=3000)
+            rc, out, _ = sh("coq_makefile -f _CoqProject -o Makefile", cwd=COQ, timeout=60)
+            tg = " ".join("theories/%s.vo" % t for t in (targets or []))
+            rc, out, dt = sh("make -j%d %s" % (NPROC, tg), cwd=COQ, timeout=3000)
             self.checker_cmds.append("make -C coq -j%d   # static library, full .vo build" % NPROC)
             if rc != 0:
                 print(out[-4000:])
                 raise SystemExit("static Coq library does not build (machinery error, not a verdict)")
+            # forbidden-construct gate on the areas this check depends on (+ its property file)
+            dirs = sorted({"theories/Base"} | {"theories/" + os.path.dirname(t) for t in (targets or [])}) \
+                if targets else ["theories"]
+            pf = "props/%s.v" % self.pid
+            if os.path.exists(os.path.join(COQ, pf)):
+                dirs.append(pf)
             rc, out, _ = sh(r"grep -rnE '\b(Admitted|admit|Axiom|Parameter|Conjecture|Unset Guard|bypass_check|type-in-type)\b' "
-                            "--include=*.v theories props || true", cwd=COQ)
+                            "--include=*.v %s || true" % " ".join(dirs), cwd=COQ)
             if out.strip():
                 print(out)
                 raise SystemExit("forbidden construct in the Coq development")
